@@ -387,6 +387,8 @@ def truth(interp, v):
     if isinstance(v, StrSeq):
         if any(isinstance(p, str) and p for p in v.parts):
             return True
+        if any(isinstance(p, Tok) and p.klass in ("digits", "format", "path", "name", "wcskey") for p in v.parts):
+            return True    # tokens of these classes stand for non-empty strings
         raise OutOfSubset("truthiness of symbolic string")
     from .values import truthy_static
     t = truthy_static(v)
